@@ -143,6 +143,27 @@ func (w *world) child(parent int, adj int, diff int64, numOff int64) *eth.Header
 	return h
 }
 
+func (w *world) addChild(parent, adj int, diff int64) int {
+	return w.add(w.child(parent, adj, diff, 0))
+}
+func (w *world) addBad(rng *vio.RNG, nStored int) (int, string) {
+	p := rng.Intn(nStored + 1)
+	off := int64(1)
+	if rng.Bool() {
+		off = -1
+	}
+	return w.add(w.child(p, 1, -1, off)), fmt.Sprintf("bad-height parent %d off %d", p, off)
+}
+func (w *world) submitIDs(ids ...int) (error, string) {
+	hs := make([]*eth.Header, len(ids))
+	for i, id := range ids {
+		hs[i] = w.hdrs[id]
+	}
+	return w.submit(hs...)
+}
+func (w *world) rootHeight() int64 { return w.hdrs[0].Number.Int64() }
+func (w *world) badMustFail() bool { return true }
+
 func (w *world) add(h *eth.Header) int {
 	id := len(w.hdrs)
 	w.hdrs = append(w.hdrs, h)
@@ -341,6 +362,18 @@ func parseBehaviour(raw []byte) (*behaviour, error) {
 	return b, nil
 }
 
+// chain is what a replay needs from a light client under test (eth: *world, btc: *bworld).
+type chain interface {
+	addChild(parent, adj int, diff int64) int       // a valid child joins the universe; returns its id
+	addBad(rng *vio.RNG, nStored int) (int, string) // an invalid header (wrong height / bad proof of work) joins the universe
+	submitIDs(ids ...int) (error, string)
+	observe(span int) (*obsT, error)
+	digest() int
+	rootHeight() int64
+	badMustFail() bool // the invalid header is refused with an error (eth) or silently skipped (btc)
+	release()
+}
+
 type mismatch struct {
 	Mismatch bool        `json:"mismatch"`
 	Index    int         `json:"index"`
@@ -352,7 +385,7 @@ type mismatch struct {
 	Extra    interface{} `json:"extra,omitempty"`
 }
 
-func powReplay() {
+func powReplay(btc bool) {
 	lines := vio.ReadLines()
 	var mu sync.Mutex
 	distinct := map[string]bool{}
@@ -367,7 +400,7 @@ func powReplay() {
 			vio.Fatal("bad behaviour line %d: %v", i, err)
 		}
 		rng := vio.NewRNG(seed*1000003 + uint64(i))
-		m, c, sig, ro, dn := replayOne(b, rng)
+		m, c, sig, ro, dn := replayOne(b, rng, btc)
 		mu.Lock()
 		calls += c
 		reorgs += ro
@@ -397,17 +430,23 @@ func minInt(a, b int) int {
 
 // replayOne runs one behaviour on a fresh contract store. Every call is recorded as a monitor event; the first
 // difference from the prediction is reported (the rest of the behaviour is still executed and recorded).
-func replayOne(b *behaviour, rng *vio.RNG) (mm *mismatch, calls int, sigs []string, reorgs, downs int) {
-	w, err := newWorld(rng, b.D0)
+func replayOne(b *behaviour, rng *vio.RNG, btc bool) (mm *mismatch, calls int, sigs []string, reorgs, downs int) {
+	var w chain
+	var err error
+	if btc {
+		w, err = newBWorld(rng)
+	} else {
+		w, err = newWorld(rng, b.D0)
+	}
 	if err != nil {
 		vio.Fatal("%v", err)
 	}
 	defer w.release()
 	// the universe: header i is a child of par[i] with the difficulty the model computed
 	for i := 1; i <= b.N; i++ {
-		w.add(w.child(b.Par[i-1], b.Adj[i-1], b.Diff[i-1], 0))
+		w.addChild(b.Par[i-1], b.Adj[i-1], b.Diff[i-1])
 	}
-	rootNum := w.hdrs[0].Number.Int64()
+	rootNum := w.rootHeight()
 	var events []event
 	note := func(kind string, step int, detail string, extra interface{}) {
 		if mm == nil {
@@ -422,12 +461,12 @@ func replayOne(b *behaviour, rng *vio.RNG) (mm *mismatch, calls int, sigs []stri
 	stored := map[int]bool{0: true}
 	cur := o0
 	// one call with full bookkeeping
-	do := func(step int, what string, ids []int, hs []*eth.Header, expok bool, expectChange bool, expectErr bool) {
+	do := func(step int, what string, ids []int, expok bool, expectChange bool, expectErr int) {
 		known := make([]int, len(ids))
 		for k, id := range ids {
 			known[k] = b2i(id >= 0 && stored[id])
 		}
-		err, pan := w.submit(hs...)
+		err, pan := w.submitIDs(ids...)
 		calls++
 		var o *obsT
 		var oerr error
@@ -441,37 +480,62 @@ func replayOne(b *behaviour, rng *vio.RNG) (mm *mismatch, calls int, sigs []stri
 		if pan != "" {
 			note("panic", step, what+": "+pan, nil)
 		}
-		if (err != nil) != expectErr {
-			note("verdict", step, fmt.Sprintf("%s: error=%v, predicted error=%v (%v)", what, err != nil, expectErr, err), nil)
+		if expectErr >= 0 && (err != nil) != (expectErr == 1) {
+			note("verdict", step, fmt.Sprintf("%s: error=%v, predicted error=%v (%v)", what, err != nil, expectErr == 1, err), nil)
 		}
 		if !expectChange && o.Dg != cur.Dg {
 			note("state-changed", step, what+": the contract storage changed although the model predicts no change", nil)
 		}
 		cur = o
 	}
-	probes := func(step int, v []string) {
+	// probes in one state: every orphan is attempted; of the known headers the one just stored, the previous head and one
+	// more (random) are re-submitted - all of them when there are at most three
+	probes := func(step int, v []string, just, prevHead int) {
+		var knownIDs []int
 		for j := 1; j <= b.N; j++ {
+			if v[j-1] == "I" {
+				knownIDs = append(knownIDs, j)
+			}
+		}
+		pick := map[int]bool{}
+		if len(knownIDs) <= 3 {
+			for _, j := range knownIDs {
+				pick[j] = true
+			}
+		} else {
+			pick[just] = true
+			if prevHead > 0 {
+				pick[prevHead] = true
+			}
+			pick[knownIDs[rng.Intn(len(knownIDs))]] = true
+		}
+		for j := 1; j <= b.N; j++ {
+			if v[j-1] == "I" && !pick[j] {
+				continue
+			}
 			switch v[j-1] {
 			case "I":
-				do(step, fmt.Sprintf("resubmit %d", j), []int{j}, []*eth.Header{w.hdrs[j]}, false, false, false)
+				do(step, fmt.Sprintf("resubmit %d", j), []int{j}, false, false, 0)
 				sigs = append(sigs, fmt.Sprintf("I|%v|%v|%d|%d", b.Par[:maxStored(stored)], b.Adj[:maxStored(stored)], j, cur.Head-rootNum))
 			case "R":
-				do(step, fmt.Sprintf("orphan %d", j), []int{j}, []*eth.Header{w.hdrs[j]}, false, false, true)
+				do(step, fmt.Sprintf("orphan %d", j), []int{j}, false, false, 1)
 				sigs = append(sigs, fmt.Sprintf("R|%v|%d", b.Par[:j], maxStored(stored)))
 			}
 		}
-		// wrong declared height: child of a stored header with number parent+2 / parent+0
-		p := rng.Intn(maxStored(stored) + 1)
-		for _, off := range []int64{1, -1} {
-			bad := w.child(p, 1, -1, off)
-			do(step, fmt.Sprintf("bad-height parent %d off %d", p, off), []int{-2}, []*eth.Header{bad}, false, false, true)
+		// an invalid header (eth: wrong declared height; btc: bad proof of work) on top of a stored one; it joins the
+		// universe, so that the monitor sees it if it gets stored
+		id, what := w.addBad(rng, maxStored(stored))
+		e := 1
+		if !w.badMustFail() {
+			e = -1
 		}
+		do(step, what, []int{id}, false, false, e)
 	}
-	probes(0, b.V0)
+	probes(0, b.V0, 0, 0)
 	for k, st := range b.Steps {
 		h := st.H
 		before := cur
-		do(k+1, fmt.Sprintf("submit %d", h), []int{h}, []*eth.Header{w.hdrs[h]}, true, true, false)
+		do(k+1, fmt.Sprintf("submit %d", h), []int{h}, true, true, 0)
 		stored[h] = true
 		// compare the observed state with the predicted one
 		o := cur
@@ -501,13 +565,13 @@ func replayOne(b *behaviour, rng *vio.RNG) (mm *mismatch, calls int, sigs []stri
 		}
 		// classify the step (by the model's prediction) for the coverage count
 		kind := "side"
+		prevH, prevHead := 0, 0
+		if k > 0 {
+			prevH = b.Steps[k-1].Hh
+			prevHead = b.Steps[k-1].Main[prevH]
+		}
 		if st.Main[st.Hh] == h {
 			kind = "append"
-			prevH, prevHead := 0, 0
-			if k > 0 {
-				prevH = b.Steps[k-1].Hh
-				prevHead = b.Steps[k-1].Main[prevH]
-			}
 			if prevHead != b.Par[h-1] {
 				kind = "reorg"
 				if st.Hh < prevH {
@@ -523,9 +587,12 @@ func replayOne(b *behaviour, rng *vio.RNG) (mm *mismatch, calls int, sigs []stri
 		if kind != "append" {
 			sigs = append(sigs, fmt.Sprintf("S|%v|%v|%s", b.Par[:h], b.Adj[:h], kind))
 		}
-		probes(k+1, st.V)
+		probes(k+1, st.V, h, prevHead)
 	}
 	if mm != nil {
+		if js, err := json.Marshal(b); err == nil {
+			events[0].Note = string(js) // the behaviour, so that a rejected history can be re-run in isolation
+		}
 		mm.Events = events
 	}
 	return
